@@ -412,6 +412,8 @@ func (c *FnCtx) applyCallee(st *State, site ast.Node, key string, sig *types.Sig
 			}
 		}
 	}
+	saveLets := c.letDefs
+	defer func() { c.letDefs = saveLets }()
 	c.applyLets(st, ct, env, nil)
 	short := shortFuncKey(key)
 	for i, r := range ct.Requires {
@@ -439,11 +441,13 @@ func (c *FnCtx) applyCallee(st *State, site ast.Node, key string, sig *types.Sig
 		}
 	}
 	c.bindResults(env, fi, sig, rs)
-	if ct.Fresh && len(rs) > 0 {
-		st.assume(mkOr(mkEq(rs[0], intLit(0)), mkLt(st.alloc, rs[0])))
+	if isRepo || ct.Fresh {
+		// the callee may allocate: the watermark moves (fresh(x) in its postcondition means pre.alloc < x <= alloc)
 		na := c.smt.freshConst("alloc", SInt)
 		st.assume(mkLe(st.alloc, na))
-		st.assume(mkLe(rs[0], na))
+		if ct.Fresh && len(rs) > 0 {
+			st.assume(mkOr(mkEq(rs[0], intLit(0)), mkAnd(mkLt(st.alloc, rs[0]), mkLe(rs[0], na))))
+		}
 		st.alloc = na
 	}
 	if ct.NonNil && len(rs) > 0 {
@@ -494,10 +498,10 @@ func (c *FnCtx) bindResults(env map[string]*Term, fi *FuncInfo, sig *types.Signa
 	}
 }
 
+// applyLets activates the `let` definitions of a contract: they are expanded where they are used, in the state
+// of the clause that uses them (so a let may denote a post-state value in an ensures clause).
 func (c *FnCtx) applyLets(st *State, ct *Contract, env map[string]*Term, old *State) {
-	for _, l := range ct.Lets {
-		env[l.Name] = c.specEval(st, l.Expr, env, old)
-	}
+	c.letDefs = ct.Lets
 }
 
 // freshOfType: an unconstrained value of Go type t (with the well-formedness facts of its sort).
@@ -567,7 +571,10 @@ func (c *FnCtx) havocAllHeap(st *State) {
 // havocLocation applies one assigns item: x.f (a field location), m[all] (contents of a map), *p (a cell).
 func (c *FnCtx) havocLocation(st *State, loc *SExpr, env map[string]*Term, pre *State) {
 	for _, hl := range c.locHeaps(pre, loc, env) {
+		// nothing lives at the nil reference: a nil map/pointer in an assigns clause denotes no location
+		st.guards = append(st.guards, mkNot(mkEq(hl.ref, intLit(0))))
 		c.heapWrite(st, hl.name, hl.sort, hl.ref, c.smt.freshConst("hv", hl.sort))
+		st.guards = st.guards[:len(st.guards)-1]
 	}
 }
 
